@@ -492,7 +492,7 @@ Section Sound.
       destruct (Hm x e E) as [v ->]. apply lit_not_assign.
     - cbn. destruct ret. reflexivity.
   Qed.
-  Lemma name_lf st v x : lf v = true -> name_if_lambda st v x = st.
+  Lemma name_lf n0 st v x : lf v = true -> name_if_created n0 st v x = st.
   Proof. destruct v; try reflexivity; discriminate. Qed.
 
   Definition do_body (c : cfg) (stmts : list (commented expr)) (ret : expr) : result :=
@@ -553,7 +553,7 @@ Section Sound.
         cbn [app] in E1, E2. rewrite E1, E2.
         destruct r as [w| | | |];
           try (cbn [cast_fail]; eexists _, st1, f1, f2; repeat split; discriminate).
-        unfold bind_value. cbn [snd fst insert_head]. rewrite (name_lf st1 w x (Hlf w eq_refl)).
+        unfold bind_value. cbn [snd fst insert_head]. rewrite (name_lf _ st1 w x (Hlf w eq_refl)).
         destruct (IH ret HQr Hfr Hf2 ((x, w) :: f1) ((x, w) :: f2) L1 L2 (smap_remove m x) (x :: bound) st1
                      (Env_bind bound f1 f2 L1 L2 m x w (Hlf w eq_refl) HE) HV2)
           as (r & st2 & g1 & g2 & E3 & E4 & Hlf2).
